@@ -43,11 +43,12 @@ def main(chk):
       if self.is_mutable_collection('batch_stats') and not self.is_initializing():
         c.value = c.value + 1
       out = p[0] + c.value
+      kd = None
       if self.use_rng:
-        out = out + 0 * jax.random.uniform(self.make_rng('dropout'))
+        kd = jnp.asarray(jax.random.key_data(self.make_rng('dropout')), jnp.uint32).reshape(-1)[:2]
       for name, sub in self.kids:
         out = out + Layer(sub, name=name)()
-      return out
+      return (out, kd) if self.use_rng else out
 
   class NLayer(nnx.Module):
     def __init__(self, kids, rngs):
@@ -78,35 +79,51 @@ def main(chk):
   f13 = tlc.run('Bridge', 'Bridge_f13.cfg', workers=1, cache=False, coverage=False, timeout=600)
   if f13['ok']:
     raise tlc.TLCError('Bridge_f13.cfg: TLC no longer refutes the shallow attribute merge (F13 self-test)')
-  for beh in res['exports']:
+  import linen_common
+  exports = res['exports']
+  if not chk.thorough:
+    import random
+    exports = random.Random(chk.seed).sample(exports, min(len(exports), 260))
+  for beh in exports:
     layers = [tuple(p) for p in beh['layers']]
     kids = tree_of(layers)
     muts = [c['mutable'] for c in beh['calls']]
-    key = f"C18:ToNNX:{beh['shape']}:" + ''.join('M' if m else '-' for m in muts)
+    key = f"C18:ToNNX:{beh['shape']}:" + ''.join(('M' if c['mutable'] else '-') + (str(c['rng']) if c['rng'] else '') for c in beh['calls'])
+    keymap = linen_common.KeyMap()
     # ---------------- ToNNX
     try:
-      lin = Layer(kids)
-      m = bridge.ToNNX(lin, rngs=nnx.Rngs(0))
+      lin = Layer(kids, use_rng=True)
+      m = bridge.ToNNX(lin, rngs=nnx.Rngs(params=0, dropout=1))
       bridge.lazy_init(m)
       bad = None
-      direct_vars = lin.init(jax.random.key(0))
+      direct_vars = lin.init({'params': jax.random.key(0), 'dropout': jax.random.key(1)})
+      ref_own = nnx.Rngs(params=0, dropout=1)
+      ref_own.dropout()      # lazy_init consumed the first key of the wrapper's own stream
       for i, c in enumerate(beh['calls']):
         try:
-          out = m(mutable=['batch_stats']) if c['mutable'] else m()
+          kw = {'rngs': nnx.Rngs(dropout=c['rng'])} if c['rng'] else {}
+          out = m(mutable=['batch_stats'], **kw) if c['mutable'] else m(**kw)
+          out, kd = out
           ok = True
         except Exception as e:
           ok, err = False, f'{type(e).__name__}: {str(e)[:120]}'
         # the wrapped module applied directly on the same variables
+        dkey = nnx.Rngs(dropout=c['rng']).dropout() if c['rng'] else ref_own.dropout()      # the key linen.apply is given by hand
         if c['mutable']:
-          dout, upd = lin.apply(direct_vars, mutable=['batch_stats'])
+          (dout, dkd), upd = lin.apply(direct_vars, mutable=['batch_stats'], rngs={'dropout': dkey})
           direct_vars = {**direct_vars, **upd}
         else:
-          dout = lin.apply(direct_vars)
+          dout, dkd = lin.apply(direct_vars, rngs={'dropout': dkey})
         if not ok:
           bad = f'call {i + 1} (mutable={c["mutable"]}) raised {err}; the Linen module applied on the same variables returns {float(dout)}'
           break
         if float(out) != float(c['out']) or float(out) != float(dout):
           bad = f'call {i + 1}: wrapper returned {float(out)}, Linen apply {float(dout)}, specification {c["out"]}'
+          break
+        msg = keymap.check(c['keyid'], np.asarray(kd).tobytes().hex())
+        if msg or not np.array_equal(np.asarray(kd), np.asarray(dkd)):
+          bad = (f'call {i + 1} (rngs={"Rngs(dropout=%d)" % c["rng"] if c["rng"] else "the wrapper\'s own"}): the wrapped module drew a key that '
+                 f'{"differs from the one linen.apply gets with the same stream" if not msg else msg}')
           break
         st = nnx.state(m)
         flat = {tuple(p): v for p, v in nnx.to_flat_state(st)}
@@ -133,6 +150,8 @@ def main(chk):
       chk.violation(key + (':nested-mutable-update' if deep else ''), bad, beh)
     # ---------------- ToLinen
     key2 = f"C18:ToLinen:{beh['shape']}:" + ''.join('M' if m else '-' for m in muts)
+    if any(c['rng'] for c in beh['calls']):
+      continue      # (the rngs dimension belongs to ToNNX; ToLinen histories are the ones without it)
     try:
       tl = bridge.to_linen(NLayer, kids)
       variables = tl.init(jax.random.key(0))
@@ -232,8 +251,38 @@ def main(chk):
   m = bridge.ToNNX(Layer((), use_rng=True), rngs=nnx.Rngs(dropout=1, params=0))
   bridge.lazy_init(m)
   chk.count('C18:rng')
-  if float(m()) != 2.0:
+  if float(m()[0]) != 2.0:
     chk.violation('C18:ToNNX:rng', 'a wrapped Linen module that uses make_rng does not return the Linen result', {})
+  # call-time rngs: the wrapped module must see the caller's keys (as linen.apply with those keys would), and the wrapper's own
+  # streams must not be consumed by such a call
+  class KeyLayer(nn.Module):
+    @nn.compact
+    def __call__(self):
+      p = self.param('p', lambda k: jnp.asarray(2.0))
+      return p + (jax.random.key_data(self.make_rng('dropout')).reshape(-1)[0] % 4096).astype(jnp.float32)
+
+  def fresh():
+    w = bridge.ToNNX(KeyLayer(), rngs=nnx.Rngs(dropout=1, params=0))
+    bridge.lazy_init(w)
+    return w
+  lin_vars = KeyLayer().init({'params': jax.random.key(0), 'dropout': jax.random.key(1)})
+  chk.count('C18:ToNNX:call-time-rngs')
+  try:
+    a7 = float(fresh()(rngs=nnx.Rngs(dropout=7)))
+    a8 = float(fresh()(rngs=nnx.Rngs(dropout=8)))
+    want7 = float(KeyLayer().apply(lin_vars, rngs={'dropout': nnx.Rngs(dropout=7).dropout()}))
+    want8 = float(KeyLayer().apply(lin_vars, rngs={'dropout': nnx.Rngs(dropout=8).dropout()}))
+    w = fresh()
+    w(rngs=nnx.Rngs(dropout=7))
+    own_after, own_fresh = float(w()), float(fresh()())
+    if (a7, a8) != (want7, want8):
+      chk.violation('C18:ToNNX:call-time-rngs', f'ToNNX(...)(rngs=Rngs(dropout=7 / 8)) returned {a7} / {a8}; the Linen module applied with those '
+                                                 f'keys returns {want7} / {want8}', {})
+    if own_after != own_fresh:
+      chk.violation('C18:ToNNX:call-time-rngs', f'a call with explicit rngs consumed the wrapper\'s own stream: next plain call {own_after}, '
+                                                 f'a fresh wrapper\'s first plain call {own_fresh}', {})
+  except Exception as e:
+    chk.violation('C18:ToNNX:call-time-rngs', f'raised {type(e).__name__}: {str(e)[:200]}', {})
   chk.finish(rule='all call histories (3 calls, mutable or not) on 5 layer trees (depth 0-3) for ToNNX and ToLinen', exhaustive=True)
 
 
